@@ -29,6 +29,10 @@ pub mod filter;
 pub mod responses;
 pub mod tag;
 
+#[cfg(feature = "verif-hooks")]
+#[doc(hidden)]
+pub mod verif_hooks;
+
 pub use mpd_protocol as protocol;
 
 pub use self::client::Client;
